@@ -1396,7 +1396,7 @@ M("SEED-C02-c", ["C02"], [("@patch", "seeded/C02-c/patch.diff", "")], ["C02/base
 M("SEED-C03-c", ["C03"], [("@patch", "seeded/C03-c/patch.diff", "")], ["C03/comp/removes-the-acknowledged-entry"])
 M("SEED-C04-c", ["C04"], [("@patch", "seeded/C04-c/patch.diff", "")], ["C04/fresh/before-any-failure"])
 M("SEED-C05-c", ["C05"], [("@patch", "seeded/C05-c/patch.diff", "")], ["C05/replay/pending_control"])
-M("SEED-C06-c", ["C06"], [("@patch", "seeded/C06-c/patch.diff", "")], ["C06/inc/after-removal/PubAck"])
+M("SEED-C06-c", ["C06"], [("@patch", "seeded/C06-c/patch.diff", "")], ["C06/inc/arm/SubAck"])
 M("SEED-C07-c", ["C07"], [("@patch", "seeded/C07-c/patch.diff", "")], ["C07/fresh/pending_release"])
 M("SEED-C08-c", ["C08"], [("@patch", "seeded/C08-c/patch.diff", "")], ["C08/tables/qos3"])
 M("SEED-C09-c", ["C09"], [("@patch", "seeded/C09-c/patch.diff", "")], ["C09/bits/connect/will-retain"])
